@@ -1,6 +1,7 @@
 package stake
 
 import (
+	"encoding/json"
 	"fmt"
 	"github.com/holiman/uint256"
 	cfg "github.com/rigochain/rigo-go/cmd/config"
@@ -28,6 +29,7 @@ type StakeCtrler struct {
 
 	allDelegatees     DelegateeArray
 	lastValidators    DelegateeArray
+	savedValidators   []byte
 	delegateeLedger   ledger.IFinalityLedger[*Delegatee]
 	frozenLedger      ledger.IFinalityLedger[*Stake]
 	rewardLedger      ledger.IFinalityLedger[*Reward]
@@ -81,7 +83,48 @@ func NewStakeCtrler(config *cfg.Config, govHandler ctrlertypes.IGovHandler, logg
 	// set `lastValidators` of StakeCtrler
 	_ = ret.UpdateValidators(int(govHandler.MaxValidatorCnt()))
 
+	// restore the validators last reported to the consensus engine (persisted at Commit),
+	// so that a restarted node continues exactly like a node that kept running.
+	ret.loadLastValidators()
+
 	return ret, nil
+}
+
+type savedValidator struct {
+	Addr       types.Address  `json:"address"`
+	PubKey     bytes.HexBytes `json:"pubKey"`
+	TotalPower int64          `json:"totalPower,string"`
+}
+
+func (ctrler *StakeCtrler) saveLastValidators() {
+	vals := make([]*savedValidator, len(ctrler.lastValidators))
+	for i, v := range ctrler.lastValidators {
+		vals[i] = &savedValidator{Addr: v.Addr, PubKey: v.PubKey, TotalPower: v.TotalPower}
+	}
+	bz, err := json.Marshal(vals)
+	if err != nil || bytes.Compare(bz, ctrler.savedValidators) == 0 {
+		return
+	}
+	if err := ctrler.rwdHashDB.PutLastValidators(bz); err == nil {
+		ctrler.savedValidators = bz
+	}
+}
+
+func (ctrler *StakeCtrler) loadLastValidators() {
+	bz := ctrler.rwdHashDB.LastValidators()
+	if bz == nil {
+		return
+	}
+	var vals []*savedValidator
+	if err := json.Unmarshal(bz, &vals); err != nil {
+		return
+	}
+	lastValidators := make(DelegateeArray, len(vals))
+	for i, v := range vals {
+		lastValidators[i] = &Delegatee{Addr: v.Addr, PubKey: v.PubKey, TotalPower: v.TotalPower}
+	}
+	ctrler.lastValidators = lastValidators
+	ctrler.savedValidators = bz
 }
 
 func (ctrler *StakeCtrler) InitLedger(req interface{}) xerrors.XError {
@@ -807,6 +850,8 @@ func (ctrler *StakeCtrler) Commit() ([]byte, int64, xerrors.XError) {
 		_ = ctrler.rwdHashDB.PutLastRewardHash(h2)
 		ctrler.lastRwdHash = h2
 	}
+
+	ctrler.saveLastValidators()
 
 	return crypto.DefaultHash(h0, h1, ctrler.lastRwdHash), v0, nil
 }
